@@ -105,6 +105,7 @@ func main() {
 		c.decodeSide(c.accepted("defaults", "byvalue", "maps", "lists", "nocopy"), 2*n, false)
 		c.roundTrip(c.accepted("defaults", "byvalue"), 2*n)
 	case "C11":
+		c.hugeHolder()
 		c.decodeSide(c.accepted("evolution", "evomix", "empty", "recursive", "leaf", "byvalue", "random", "wide", "spellings"), 3*n, true)
 	case "C12":
 		c.resolveAll(false)
